@@ -95,6 +95,10 @@ class DictProxy(dict):
     def copy(self) -> "DictProxy":
         return DictProxy(self.cfg, self.dict_field, self)
 
+    def __ior__(self, other: KeyValuePairs) -> "DictProxy":  # type: ignore[override,misc]
+        self.update(other)
+        return self
+
     def __setitem__(self, key: Any, value: Any) -> None:
         key, value = self._validate(key, value)
         super().__setitem__(key, value)
